@@ -216,6 +216,22 @@ def run(cx, rep):
                     rep.ob("C07.3", "%s/%s" % (f.id.rsplit("::", 1)[-1], adt.rsplit("::", 1)[-1]), False,
                            "match over %s in %s has a catch-all arm that produces a value: a tag/atom kind would be materialised as something else" % (adt, f.id),
                            "%s:%s" % (f.file, a["line"]))
+    # every arm of the tag / proper-subtype dispatch of convert_to_schema_no_cache contributes to the accumulated union
+    for g in sorted(F.hir):
+        f = F.fns.get(g)
+        if f is None or f.name != "convert_to_schema_no_cache":
+            continue
+        for n in walk(F.hir[g]["body"]):
+            if n["k"] != "Match" or n.get("src") != "Normal" or not re.search(r"(SubTypeTag|ProperSubtype)$", n.get("scrut_adt") or ""):
+                continue
+            for a in n["arms"]:
+                if arm_is_panic(a["body"]):
+                    continue
+                v = (a["pat"].get("def") or "_").rsplit("::", 1)[-1]
+                contributes = any(x["k"] == "MethodCall" and x["method"] in ("insert", "extend", "push") for x in walk(a["body"]))
+                rep.ob("C07.3", "contributes/%s::%s" % ((n.get("scrut_adt") or "").rsplit("::", 1)[-1], v), contributes,
+                       "convert_to_schema_no_cache: the %s arm adds nothing to the materialised union: values of that tag are in the semantic type but not in the type handed to code generation" % v,
+                       "%s:%s" % (f.file, a["line"]), sample={"arm": v})
     rep.ob("C07.3", "scan", True, sample={"dispatch_matches": n_m})
     rep.floor("C07.3", "dispatch matches in to_schema.rs", n_m, 10)
 
